@@ -2,6 +2,7 @@
 from .. import gen_types as gt
 from . import c04
 
+HARNESS_FILES = gt.harness_files
 ID = "C09"
 N_QUICK = 2000
 N_THOROUGH = 30000
@@ -19,7 +20,16 @@ def gen(rng, tier, n):
     while len(ops) < n:
         used = set()
         t = gt.gen_type(rng, rng.choice([1, 2, 3]), used)
-        ops.append({"op": "infer-decodes", "args": {"type": t, "seed": rng.randint(0, 10**6), "n": 2 if tier == "quick" else 6},
+        args = {"type": t, "seed": rng.randint(0, 10**6), "n": 2 if tier == "quick" else 6}
+        if rng.random() < 0.15:
+            # history: the same type was inferred earlier in this process with a looser TypeSchemas override for a type inside it
+            from ..wire import Obj
+            nm = rng.choice(["Inner", "MyInt", "MyString", "MyFloat", "time.Time"] + gt.GEN["names"][:6])
+            args["pre"] = [{"type": t, "opts": {"ignore": rng.random() < 0.3, "typeSchemas": [{"name": nm, "schema": rng.choice([Obj(), True, Obj([("type", ["string", "number", "object"])])])}]}}]
+            if rng.random() < 0.6:
+                args["type"] = t = {"k": "struct", "fields": [{"name": "P", "tag": 'json:"p"', "t": {"k": "named", "name": nm}}, {"name": "Q", "tag": 'json:"q"', "t": t}]}
+                args["pre"][0]["type"] = t
+        ops.append({"op": "infer-decodes", "args": args,
                     "meta": {"used": sorted(used), "nt": t["k"] in ("struct", "slice", "array", "map", "ptr", "named")}})
     return ops
 
